@@ -41,6 +41,8 @@ class Tr:
     def __init__(self, fn, module_ns, callees):
         self.fn, self.ns, self.callees = fn, module_ns, callees
         self.assigned_attrs = set()
+        self.loop_tail = None
+        self.loops = []
 
     # ---------------------------------------------------------------- names
     def attr_chain(self, node):
@@ -59,6 +61,10 @@ class Tr:
     def typ(self, var):
         return self.fn.types.get(var, "Int")
 
+    def lean_ty(self, var):
+        t = self.typ(var)
+        return "Int" if t == "Len" else t
+
     # ---------------------------------------------------------------- expressions: return (text, type) with type in Int/Nat/Bool/lit
     def lit(self, v, want):
         if v < 0:
@@ -73,6 +79,8 @@ class Tr:
             return t
         if ty == "Seq" and want == "Int":
             return t
+        if (ty, want) in (("Len", "Int"), ("Int", "Len")):
+            return t
         if ty == "Nat" and want == "Int":
             return "(%s : Int)" % t
         if ty == "Int" and want == "Nat":
@@ -81,7 +89,7 @@ class Tr:
 
     def join(self, a, b):
         """common numeric type of two operands"""
-        tys = {"Int" if t == "Seq" else t for t in (a[1], b[1])} - {"lit"}
+        tys = {"Int" if t in ("Seq", "Len") else t for t in (a[1], b[1])} - {"lit"}
         if not tys:
             return "Int"
         if tys == {"Nat"}:
@@ -91,6 +99,21 @@ class Tr:
         return "Int"
 
     def expr(self, n):
+        if isinstance(n, ast.Constant) and n.value == b"":
+            return ("(0 : Int)", "Len")
+        if isinstance(n, ast.List) and not n.elts:
+            return ("([] : List Int)", "List Int")
+        if isinstance(n, ast.Subscript) and isinstance(n.slice, ast.Slice) and n.slice.step is None:
+            # byte strings are abstracted to their lengths: len(p[:k]) = min(len p, k), len(p[k:]) = max(0, len p - k)  (k >= 0)
+            b = self.expr(n.value)
+            if b[1] != "Len":
+                raise Unsupported("slice of something that is not a byte string abstracted to its length")
+            lo, hi = n.slice.lower, n.slice.upper
+            if lo is None and hi is not None:
+                return ("(min %s %s)" % (b[0], self.coerce(self.expr(hi), "Int")), "Len")
+            if hi is None and lo is not None:
+                return ("(max 0 (%s - %s))" % (b[0], self.coerce(self.expr(lo), "Int")), "Len")
+            raise Unsupported("slice with both or no bounds")
         if isinstance(n, ast.Constant):
             if isinstance(n.value, bool):
                 return ("true" if n.value else "false", "Bool")
@@ -213,6 +236,11 @@ class Tr:
             return ("(%s %s %s)" % (a, sym, b), "Int")
         if isinstance(f, ast.Name) and f.id == "int" and len(n.args) == 1:
             return self.expr(n.args[0])
+        if isinstance(f, ast.Name) and f.id == "len" and len(n.args) == 1:
+            e = self.expr(n.args[0])
+            if e[1] != "Len":
+                raise Unsupported("len() of something that is not a byte string abstracted to its length")
+            return (e[0], "Int")
         if isinstance(f, ast.Name) and f.id == "abs" and len(n.args) == 1:
             return ("(Int.ofNat (%s).natAbs)" % self.coerce(self.expr(n.args[0]), "Int"), "Int")
         if isinstance(f, ast.Name) and f.id == "isinstance":
@@ -255,6 +283,8 @@ class Tr:
 
     def block(self, stmts, ind):
         pad = "  " * ind
+        if not stmts and self.loop_tail is not None:
+            return pad + self.loop_tail
         if not stmts:
             if self.fn.ret is not None:
                 raise Unsupported("%s can fall off its end (returns None)" % self.fn.lean)
@@ -264,6 +294,44 @@ class Tr:
             return self.block(rest, ind)
         if isinstance(s, ast.Pass):
             return self.block(rest, ind)
+        if (isinstance(s, ast.Expr) and isinstance(s.value, ast.Call) and isinstance(s.value.func, ast.Attribute)
+                and s.value.func.attr == "append" and len(s.value.args) == 1):
+            v = self.target(s.value.func.value)
+            if self.typ(v) != "List Int":
+                raise Unsupported("append to %s" % v)
+            e = self.coerce(self.expr(s.value.args[0]), "Int")
+            return "%slet %s : List Int := %s ++ [%s]\n%s" % (pad, v, v, e, self.block(rest, ind))
+        if isinstance(s, ast.While):
+            # a loop becomes a recursive definition over a fuel argument (emitted in front of the kernel); the variables it carries
+            # are the ones its body assigns; running out of fuel is an error of its own, never a silent stop
+            if s.orelse or self.loop_tail is not None:
+                raise Unsupported("while/else or nested loop")
+            carried = []
+            for node in [x for st in s.body for x in ast.walk(st)]:
+                tg = None
+                if isinstance(node, ast.Assign):
+                    tg = node.targets[0]
+                elif isinstance(node, ast.AugAssign):
+                    tg = node.target
+                elif isinstance(node, ast.Call) and isinstance(node.func, ast.Attribute) and node.func.attr == "append":
+                    tg = node.func.value
+                if tg is not None:
+                    v = self.target(tg)
+                    if v not in carried:
+                        carried.append(v)
+            name = self.fn.lean + "_loop"
+            ro = [(p, t) for p, t in self.fn.all_binders if p not in carried and p != "fuel"]
+            args = " ".join([p for p, _ in ro] + carried)
+            self.loop_tail = "(%s fuel %s)" % (name, args)
+            body = self.block(list(s.body), 3)
+            self.loop_tail = None
+            ctup = ", ".join(carried)
+            cty = " × ".join(self.lean_ty(v) for v in carried)
+            self.loops.append("/-- the `while` loop of %s -/\ndef %s : Nat → %s → Except Err (%s)\n  | 0, %s => .error .fuel\n  | fuel + 1, %s =>\n    if %s then\n%s\n    else\n      .ok (%s)\n\n" % (
+                self.fn.doc.split(":")[0], name, " → ".join([("Int" if t == "Len" else t) for _, t in ro] + [self.lean_ty(v) for v in carried]), cty,
+                ", ".join("_" for _ in ro + carried), ", ".join([p for p, _ in ro] + carried), self.cond(s.test), body, ctup))
+            return ("%smatch %s fuel %s with\n%s| .error e => .error e\n%s| .ok (%s) =>\n%s"
+                    % (pad, name, args, pad, pad, ctup, self.block(rest, ind + 1)))
         if isinstance(s, ast.Expr) and isinstance(s.value, ast.Call) and self.attr_chain(s.value.func) == "stream.write":
             # `stream.write(struct.pack(FMT, a, b, ...))`: the bytes are appended to the output state `out`; `struct.error` propagates
             if "out" not in self.fn.out_state or len(s.value.args) != 1:
@@ -288,7 +356,7 @@ class Tr:
             else:
                 self.fn.seq.discard(v)
             e = self.coerce(ev, self.typ(v))
-            return "%slet %s : %s := %s\n%s" % (pad, v, self.typ(v), e, self.block(rest, ind))
+            return "%slet %s : %s := %s\n%s" % (pad, v, self.lean_ty(v), e, self.block(rest, ind))
         if isinstance(s, ast.AugAssign):
             v = self.target(s.target)
             load = ast.copy_location(ast.BinOp(left=self._load(s.target), op=s.op, right=s.value), s)
@@ -349,6 +417,14 @@ def _stale_test(fdef):
     raise Unsupported("_recv_datagram: the stale-datagram guard was not found in its expected shape")
 
 
+def _split_loop(fdef):
+    """`FragmentSender.build`: the size check, `self.fragments = []` and the `while` loop that cuts the payload; result = the list"""
+    body = [st for st in fdef.body if not (isinstance(st, ast.Expr) and isinstance(st.value, ast.Constant))]
+    if not (len(body) >= 3 and isinstance(body[0], ast.If) and isinstance(body[1], ast.Assign) and isinstance(body[2], ast.While)):
+        raise Unsupported("FragmentSender.build does not start with `if ...: raise`, `self.fragments = []`, `while ...`")
+    return body[:3]
+
+
 def kernels(C, Z=None):
     """the fixed list of kernels; C, Z = the live `mpgameserver.connection` / `mpgameserver.serializable` modules of the tree under test"""
     S, B, P = C.SeqNum, C.BitField, C.Packet
@@ -386,6 +462,9 @@ def kernels(C, Z=None):
            types={"self_bitfield_pkt_nbits": "Nat"}, seq=("self_bitfield_pkt_current_seqnum", "pkt_hdr_seq"),
            doc="the stale-datagram guard of `_recv_datagram` (true = dropped as a replay)"),
     ]
+    ks.append(Fn("FragmentSender_split", f(C.FragmentSender, "build"), [("fuel", "Nat"), ("payload", "Len")], ret=None, state=["self_fragments"], extract=_split_loop,
+                 types={"self_fragments": "List Int", "payload": "Len"},
+                 doc="FragmentSender.build: the lengths of the fragments the `while` loop cuts a payload of a given length into"))
     if Z is not None:
         k = Fn("serialize_int", Z.serialize_int, [("stream", "Unit"), ("value", "Int")], state=["out"], types={"out": "List UInt8"}, ret=None,
                doc="serialize_int: width selection and `struct.pack`; state = the bytes written to `stream`")
@@ -400,6 +479,7 @@ READS = {   # read-only attributes that become extra parameters (they are object
     "ack_names": [("hdr_ack", "Int"), ("hdr_ack_bits", "Nat")],
     "stale_datagram": [("self_bitfield_pkt_current_seqnum", "Int"), ("self_bitfield_pkt_nbits", "Nat"), ("pkt_hdr_seq", "Int")],
     "serialize_int": [("out", "List UInt8")],
+    "FragmentSender_split": [("Packet_MAX_PAYLOAD_SIZE", "Int"), ("Packet_MAX_FRAGMENT_SIZE", "Int")],
 }
 
 CALLEES = {"diff": ("SeqNum_diffV", "pure", "Int")}
@@ -410,7 +490,7 @@ One Lean definition per Python kernel, statement by statement (see the translato
 -/
 namespace Mpgs.Gen
 
-inductive Err | valueError | duplication | typeError | structError
+inductive Err | valueError | duplication | typeError | structError | fuel
   deriving DecidableEq, Repr
 
 '''
@@ -461,6 +541,7 @@ GROUPS = {      # group -> (kernels, imports): one Lean file and one equivalence
     "Ack": (["ack_names"], ["Seq"]),
     "Size": (["Packet_overhead", "Packet_setMTU"], ["Seq"]),
     "Serial": (["serialize_int"], ["Seq"]),
+    "Frag": (["FragmentSender_split"], ["Seq"]),
 }
 
 
@@ -472,6 +553,7 @@ def translate_one(fn, default_ns):
         fn.types[v] = t
     fn.out_state = list(fn.state)                                   # what the kernel assigns: returned
     fn.state = fn.out_state + [v for v, _ in reads if v not in fn.out_state]   # everything that is a variable, not a constant
+    fn.all_binders = py_params + reads
     tr = Tr(fn, ns, CALLEES)
     src = textwrap.dedent(inspect.getsource(fn.obj))
     fdef = ast.parse(src).body[0]
@@ -492,9 +574,9 @@ def translate_one(fn, default_ns):
                     if ch is None or tr.var_of(ch) not in fn.out_state:
                         raise Unsupported("%s assigns %s, which is not declared as its state" % (fn.lean, ch))
     body = tr.block(stmts, 1)
-    binders = " ".join("(%s : %s)" % (p, t) for p, t in py_params + reads)
-    rty = ([fn.ret] if fn.ret is not None else []) + [fn.types.get(v, "Int") for v in fn.out_state]
-    text = "/-- %s -/\ndef %s %s : Except Err (%s) :=\n%s\n\n" % (fn.doc, fn.lean, binders, " × ".join(rty), body)
+    binders = " ".join("(%s : %s)" % (p, "Int" if t == "Len" else t) for p, t in py_params + reads)
+    rty = ([fn.ret] if fn.ret is not None else []) + [("Int" if fn.types.get(v, "Int") == "Len" else fn.types.get(v, "Int")) for v in fn.out_state]
+    text = "".join(tr.loops) + "/-- %s -/\ndef %s %s : Except Err (%s) :=\n%s\n\n" % (fn.doc, fn.lean, binders, " × ".join(rty), body)
     if fn.lean == "SeqNum_diff":
         text += DIFFV
     return text, hashlib.sha1(src.encode()).hexdigest()[:12]
